@@ -110,6 +110,6 @@ pub fn spec() -> PropSpec {
         level: "exploration",
         rule: "(a) Generated operation sequences on Register, WORegister and Vec from generated initial objects; at each step the offered return is the true one or a generated other one: is_valid_step(op, ret) must equal (clone.invoke(op) == ret) and, when true, leave the same object state; is_valid_history must accept exactly the sequences whose every return equals what invoking from the initial object gives. (b) Register-harness models built from generated servers (answering each request at most once: immediately, after an internal round trip, or never; possibly wrong values) and the provided clients, with a recording ConsistencyTester as history: per client the log alternates invoke/return with at most one outstanding, the number of invokes equals op_count, request ids are fresh, the logged operations mirror the Put/Get sent and the replies accepted on that path. Non-trivial = (a) >= 3 steps with an effective wrong return; (b) >= 2 clients and >= 1 reply delivered. Distinct by hash of the case.",
         assumptions: vec!["the object state after a *rejected* step is never used by the library and is not compared"],
-        subs: vec![Box::new(RefObjects)],
+        subs: vec![Box::new(RefObjects), Box::new(crate::props::c18b::Harness)],
     }
 }
